@@ -272,6 +272,8 @@ class Parameter(AbstractParameter):
         kwargs['requires_grad'] = data.get('requires_grad', False)
 
         if 'full_like' in data:
+            if dtype:
+                kwargs['dtype'] = dtype
             input_param = process_object(data['full_like'], dic)
             if 'rand' in data:
                 t = tensor_rand(data['rand'], input_param.shape, **kwargs)
@@ -290,6 +292,8 @@ class Parameter(AbstractParameter):
                 values = data['tensor']
                 t = torch.full(size, values, **kwargs)
         elif 'zeros_like' in data:
+            if dtype:
+                kwargs['dtype'] = dtype
             input_param = process_object(data['zeros_like'], dic)
             t = torch.zeros_like(input_param.tensor, **kwargs)
         elif 'zeros' in data:
@@ -298,6 +302,8 @@ class Parameter(AbstractParameter):
             size = data['zeros']
             t = torch.zeros(size, **kwargs)
         elif 'ones_like' in data:
+            if dtype:
+                kwargs['dtype'] = dtype
             input_param = process_object(data['ones_like'], dic)
             t = torch.ones_like(input_param.tensor, **kwargs)
         elif 'ones' in data:
